@@ -86,7 +86,8 @@ process_job(IMB_MGR *p_mgr)
         IMB_JOB *job = IMB_SUBMIT_JOB(p_mgr);
 
         if (!job) {
-                const int err = imb_get_errno(p_mgr);
+                /* the manager's own status: imb_get_errno() may report another manager's error */
+                const int err = p_mgr->imb_errno;
 
                 /* check for error */
                 if (err != 0)
